@@ -253,9 +253,9 @@ def helpers(ctx: Ctx):
                             why = f"for len = {g['n']} returns {flow.dump(val)[:80]} (expected {want})"
             ok = rows_ok
         else:
-            why = "cannot find len(cell minus id) in the test"
+            raise AnalysisError("remove_from_collection_dict: cannot find len(<cell minus id>) in the test: unrecognised way of computing the remaining ids")
     else:
-        why = f"{len(cases)} cases"
+        raise AnalysisError(f"remove_from_collection_dict: {len(cases)} cases, expected delete-or-set")
     ctx.check(ok, "D4", "IX.helper", "remove_from_collection_dict = cell minus {id}; the cell is deleted iff it becomes empty (table over len)", fn,
               why_bad=why, construct="remove_from_collection_dict")
 
